@@ -16,7 +16,9 @@ import (
 	"strings"
 	"time"
 
+	"github.com/awslabs/ar-go-tools/analysis/dataflow"
 	"github.com/awslabs/ar-go-tools/analysis/lang"
+	"golang.org/x/tools/go/callgraph"
 	"golang.org/x/tools/go/ssa"
 	"verif/harness/gen"
 	"verif/harness/lib"
@@ -63,7 +65,7 @@ func main() {
 			continue
 		}
 		for k, n := range pp.Stats {
-			if strings.HasPrefix(k, "call") || strings.HasPrefix(k, "go") || strings.HasPrefix(k, "defer") || strings.HasPrefix(k, "func") {
+			if strings.HasPrefix(k, "call") || strings.HasPrefix(k, "go") || strings.HasPrefix(k, "defer") || strings.HasPrefix(k, "func") || strings.HasPrefix(k, "rt-") {
 				rep.Dist["stmt:"+k] += n
 			}
 		}
@@ -147,8 +149,7 @@ func ids(d map[*ssa.Function]int, fs map[*ssa.Function]bool) string {
 
 // viaWrappers: the functions callable from the given ones through chains of synthetic wrappers
 // (bound-method closures, thunks, interface-method wrappers), following call-graph edges.
-func viaWrappers(run *ptrrun.Result, start map[*ssa.Function]bool) map[*ssa.Function]bool {
-	cg := run.State.PointerAnalysis.CallGraph
+func viaWrappers(cg *callgraph.Graph, start map[*ssa.Function]bool) map[*ssa.Function]bool {
 	seen := map[*ssa.Function]bool{}
 	var todo []*ssa.Function
 	for f := range start {
@@ -240,9 +241,10 @@ func checkProgram(rep *lib.Report, run *ptrrun.Result, pi int, queries []resolve
 	rep.Extra["native_runs"] = intOf(rep.Extra["native_runs"]) + run.NativeRuns
 	if pi == 0 {
 		for i, e := range events {
-			if i%(len(events)/4+1) == 0 && run.SiteInstr[e[1]] != nil && run.FidFn[e[0]] != nil {
-				rep.Sample(map[string]any{"site": run.SiteInstr[e[1]].String(), "in": run.SiteInstr[e[1]].Parent().String(),
-					"entered": run.FidFn[e[0]].String(), "form": callForm(run.SiteInstr[e[1]])})
+			if i%(len(events)/4+1) == 0 && len(run.SiteInstr[e[1]]) > 0 && len(run.FidFn[e[0]]) > 0 {
+				si := run.SiteInstr[e[1]][0]
+				rep.Sample(map[string]any{"site": si.String(), "in": si.Parent().String(),
+					"entered": run.FidFn[e[0]][0].String(), "form": callForm(si)})
 			}
 		}
 	}
@@ -296,7 +298,13 @@ func checkEvents(rep *lib.Report, run *ptrrun.Result, count bool) ([]miss, [][2]
 	state := run.State
 	reach := state.ReachableFunctions()
 	cg := state.PointerAnalysis.CallGraph
+	// the call graph of the pointer analysis run WITHOUT queries (dataflow.PointerAnalysis.ComputeCallgraph: the
+	// mode behind `argot render` / `argot compare`); type tracking is then restricted to what the call graph needs
+	nq, nqErr := dataflow.PointerAnalysis.ComputeCallgraph(state.Program)
 	var problems []string
+	if nqErr != nil || nq == nil {
+		problems = append(problems, fmt.Sprintf("ComputeCallgraph(PointerAnalysis) failed: %v", nqErr))
+	}
 	var missed []miss
 	events := make([][2]int, 0, len(run.Events))
 	for e := range run.Events {
@@ -308,41 +316,30 @@ func checkEvents(rep *lib.Report, run *ptrrun.Result, count bool) ([]miss, [][2]
 		}
 		return events[i][0] < events[j][0]
 	})
-	for _, e := range events {
-		fid, site := e[0], e[1]
-		callee := run.FidFn[fid]
-		instr := run.SiteInstr[site]
-		if callee == nil || instr == nil {
-			problems = append(problems, fmt.Sprintf("event (function %d, site %d) cannot be mapped to SSA", fid, site))
-			continue
-		}
-		caller := instr.Parent()
-		form := callForm(instr)
-		// edges at the site
+	edgesAt := func(g *callgraph.Graph, instr ssa.CallInstruction) map[*ssa.Function]bool {
 		direct := map[*ssa.Function]bool{}
-		if n := cg.Nodes[caller]; n != nil {
+		if g == nil {
+			return direct
+		}
+		if n := g.Nodes[instr.Parent()]; n != nil {
 			for _, edge := range n.Out {
 				if edge.Site == instr {
 					direct[edge.Callee.Func] = true
 				}
 			}
 		}
-		all := viaWrappers(run, direct)
-		via := ""
+		return direct
+	}
+	// judge one (call instruction, entered function) reading of an event: "" if everything contains it
+	judge := func(instr ssa.CallInstruction, callee *ssa.Function) (what, form, via string, ndirect int) {
+		caller := instr.Parent()
+		form = callForm(instr)
+		direct := edgesAt(cg, instr)
+		all := viaWrappers(cg, direct)
 		if !direct[callee] && all[callee] {
 			via = "-via-wrapper"
 		}
-		key := fmt.Sprintf("%s%s callees=%d", form, via, len(direct))
-		nontrivial := form != "static"
-		if count {
-			if nontrivial {
-				rep.Case(key + " " + instr.String())
-			} else {
-				rep.Case("")
-			}
-			rep.Count("event:" + form + via)
-		}
-		what := ""
+		ndirect = len(direct)
 		switch {
 		case !reach[caller]:
 			what = fmt.Sprintf("function %s executed (it performed the call `%s`) but is not in ReachableFunctions", caller.String(), instr.String())
@@ -356,12 +353,53 @@ func checkEvents(rep *lib.Report, run *ptrrun.Result, count bool) ([]miss, [][2]
 			for f := range real {
 				set[f] = true
 			}
-			if err != nil || !viaWrappers(run, set)[callee] {
+			if err != nil || !viaWrappers(cg, set)[callee] {
 				what = fmt.Sprintf("ResolveCallee(`%s`) in %s = {%s} omits the function actually called, %s (err=%v)", instr.String(), caller.String(), names(set), callee.String(), err)
+			} else if nq != nil {
+				if d2 := edgesAt(nq, instr); !viaWrappers(nq, d2)[callee] {
+					what = fmt.Sprintf("call `%s` in %s entered %s at run time, but the call graph of the pointer analysis run without queries (ComputeCallgraph(PointerAnalysis), used by argot render/compare) has no such edge at that site (edges: %s)", instr.String(), caller.String(), callee.String(), names(d2))
+				}
 			}
 		}
-		if what != "" {
-			missed = append(missed, miss{fmt.Sprintf("%s->%s", instr.String(), callee.String()), what, ptrrun.CaseOf(caller)})
+		return
+	}
+	for _, e := range events {
+		fid, site := e[0], e[1]
+		callees := run.FidFn[fid]
+		instrs := run.SiteInstr[site]
+		if len(callees) == 0 || len(instrs) == 0 {
+			problems = append(problems, fmt.Sprintf("event (function %d, site %d) cannot be mapped to SSA", fid, site))
+			continue
+		}
+		// a site inside a generic function exists once per instance, and so does the function id of a generic
+		// function: the event is explained if SOME (instruction, function) reading of it is contained
+		first, ok := "", false
+		var fi ssa.CallInstruction
+		var fc *ssa.Function
+		for _, instr := range instrs {
+			for _, callee := range callees {
+				what, form, via, nd := judge(instr, callee)
+				if what == "" && !ok {
+					ok = true
+					if count {
+						if form != "static" {
+							rep.Case(fmt.Sprintf("%s%s callees=%d %s", form, via, nd, instr.String()))
+						} else {
+							rep.Case("")
+						}
+						rep.Count("event:" + form + via)
+						if len(instrs) > 1 || len(callees) > 1 {
+							rep.Count("event-in-generic-instance")
+						}
+					}
+				}
+				if first == "" && what != "" {
+					first, fi, fc = what, instr, callee
+				}
+			}
+		}
+		if !ok {
+			missed = append(missed, miss{fmt.Sprintf("%s->%s", fi.String(), fc.String()), first, ptrrun.CaseOf(fi.Parent())})
 		}
 	}
 	return missed, events, problems
